@@ -146,6 +146,17 @@ def stream(rng, n, d, W):
     return out[:n]
 
 
+def idle_feature_stream(rng, n, d, W):
+    """one feature sits at a constant value (an idle sensor) for the first windows - also over a whole reference window - and wakes up later"""
+    nr = np.random.RandomState(rng.randrange(2 ** 31))
+    xs = np.array(stream(rng, n, d, W), dtype=float)
+    j = rng.randrange(d)
+    wake = rng.randint(2 * W + 5, 4 * W)
+    xs[:wake, j] = float(rng.choice([0.0, 1.0, -3.5]))
+    xs[wake:, j] = xs[wake:, j] * rng.choice([1.0, 3.0]) + nr.normal(0, 1)
+    return xs.tolist()
+
+
 def restless_stream(rng, n, d, W):
     """after two quiet windows the level jumps again and again at intervals shorter than a window: every drift is
     followed by another change before the detector can have collected a new reference window"""
